@@ -33,6 +33,7 @@ LOGS = os.path.join(VERIF, "logs")
 REPO = "/repo"
 SMT_ENGINES = {"C16": "smt_c16"}
 PARTIAL_RUN = False
+MAX_REPLAYS = int(os.environ.get("VERIF_MAX_REPLAYS", "1"))
 
 ENV = dict(os.environ)
 ENV["CARGO_NET_OFFLINE"] = "true"
@@ -169,12 +170,82 @@ def classify(sec):
     return r
 
 
+
+OLD_LINE = re.compile(r"^\[(?P<id>[^\]]+)\] (?:line (?P<line>\d+) )?(?P<desc>.*): (?P<st>SUCCESS|FAILURE|UNKNOWN|ERROR)\s*$")
+
+
+def classify_old(sec):
+    """Classifier for `--output-format old` (CBMC's own plain-text result list; no JSON trace
+    is built per satisfied cover / failed check, which is several times faster and far lighter on
+    memory for the large harnesses).  Same verdict rules as Kani's post-processing: a failed
+    unwinding assertion or a reachable unsupported construct makes the run INCONCLUSIVE; a cover
+    property reported FAILURE is a SATISFIED cover, SUCCESS an unsatisfiable one (vacuity)."""
+    r = dict(status="ERROR", time=None, checks=0, failed=0, covers_sat=0, covers_total=0,
+             failed_checks=[], reason="")
+    t = 0.0
+    for m in re.finditer(r"^Runtime (?:Symex|Convert SSA|Postprocess Equation|Post-process|decision procedure): ([0-9.]+)s", sec, re.M):
+        t += float(m.group(1))
+    r["time"] = round(t, 1) if t else None
+    real, soft = [], []
+    n = 0
+    for line in sec.splitlines():
+        m = OLD_LINE.match(line)
+        if not m:
+            continue
+        pid, desc, st = m.group("id"), m.group("desc"), m.group("st")
+        cls = pid.rsplit(".", 2)[-2] if pid.count(".") >= 2 else ""
+        desc = re.sub(r"^\[KANI_CHECK_ID[^\]]*\]\s*", "", desc).strip()
+        if cls == "reachability_check":
+            continue
+        if cls == "cover":
+            r["covers_total"] += 1
+            if st == "FAILURE":
+                r["covers_sat"] += 1
+            continue
+        n += 1
+        if st == "FAILURE":
+            d = dict(desc=desc.strip('"'), file="", line=m.group("line") or "", func=pid.rsplit(".", 2)[0], pid=pid)
+            if re.search(r"unwinding assertion|recursion unwinding|not currently supported by Kani", desc) or cls == "unsupported_construct":
+                soft.append(d)
+            else:
+                real.append(d)
+        elif st in ("UNKNOWN", "ERROR"):
+            soft.append(dict(desc="%s: %s" % (st, desc), file="", line="", func=pid))
+    r["checks"] = n
+    r["failed"] = len(real) + len(soft)
+    r["failed_checks"] = real + soft
+    has_verdict = re.search(r"^VERIFICATION (SUCCESSFUL|FAILED)", sec, re.M)
+    if not has_verdict:
+        if re.search(r"timed out|Timeout|TIMEOUT|timeout", sec):
+            r["status"], r["reason"] = "TIMEOUT", "harness timeout"
+        else:
+            r["reason"] = "no verdict in output (crash, kill, out of memory or compile error)"
+        return r
+    if real:
+        r["status"] = "FAIL"
+        r["reason"] = "; ".join(sorted(set(c["desc"] for c in real)))[:400]
+    elif soft:
+        r["status"] = "INCONCLUSIVE"
+        r["reason"] = "; ".join(sorted(set(c["desc"] for c in soft)))[:300]
+    elif has_verdict.group(1) == "SUCCESSFUL" or n > 0:
+        # CBMC says FAILED whenever a cover is satisfied (it reports satisfied covers as failures)
+        if r["covers_sat"] != r["covers_total"]:
+            r["status"] = "VACUOUS"
+            r["reason"] = "%d of %d cover points reachable" % (r["covers_sat"], r["covers_total"])
+        else:
+            r["status"] = "PASS"
+    return r
+
+
 # ----------------------------------------------------------------------------- running
 def run_batch(widx, batch, cap, tier, extra_flags=""):
     tdir = os.path.join(TARGET, "w%d" % widx)
     hs = " ".join("--harness gen::%s" % h.name for h in batch)
-    cmd = ("cargo kani -Z stubbing -Z unstable-options --harness-timeout %ds --output-format terse "
-           "--exact --target-dir %s %s %s" % (cap, tdir, extra_flags, hs))
+    ofmt = getattr(batch[0], "ofmt", "terse")
+    cmd = ("cargo kani -Z stubbing -Z unstable-options --harness-timeout %ds --output-format %s "
+           "--exact --target-dir %s %s %s" % (cap, ofmt, tdir, extra_flags, hs))
+    if batch[0].cbmc_args:
+        cmd += " --cbmc-args " + batch[0].cbmc_args  # must be last
     t0 = time.time()
     # outer guard: compile + all harnesses; the per-harness timeout is enforced by kani
     outer = 240 + (cap + 20) * len(batch)
@@ -195,7 +266,7 @@ def run_batch(widx, batch, cap, tier, extra_flags=""):
     results = {}
     for h in batch:
         if h.name in secs:
-            r = classify(secs[h.name])
+            r = classify_old(secs[h.name]) if ofmt == "old" else classify(secs[h.name])
         else:
             r = dict(status="ERROR", time=None, checks=0, failed=0, covers_sat=0, covers_total=0,
                      failed_checks=[], reason="harness section missing from output")
@@ -213,14 +284,14 @@ def schedule(harnesses, tier, jobs, batch_size):
     mult = 1 if tier == "quick" else 6
     q = queue.Queue()
     # heavy first; batch only harnesses with the same cap
-    hs = sorted(harnesses, key=lambda h: (-h.cap, h.name))
+    hs = sorted(harnesses, key=lambda h: (-h.cap, h.cbmc_args, h.ofmt, h.name))
     i = 0
     while i < len(hs):
         cap = hs[i].cap
         b = [hs[i]]
         i += 1
         bs = 1 if cap > 200 else batch_size
-        while i < len(hs) and hs[i].cap == cap and len(b) < bs:
+        while i < len(hs) and hs[i].cap == cap and hs[i].cbmc_args == b[0].cbmc_args and hs[i].ofmt == b[0].ofmt and len(b) < bs:
             b.append(hs[i])
             i += 1
         q.put((b, cap * mult))
@@ -319,7 +390,7 @@ def _panic_matches(out, descs):
     return False
 
 
-def replay(prop, h, tier, failed_descs=()):
+def replay(prop, h, tier, failed_descs=(), failed_pids=()):
     """Ask the solver for concrete witnesses, write them as unit tests, run them natively against
     the real build (real boomphf).  Reproduced only if a native panic matches a failed check.
     -> (reproduced: bool|None, path, detail)"""
@@ -328,6 +399,12 @@ def replay(prop, h, tier, failed_descs=()):
     cmd = ("cargo kani -Z stubbing -Z unstable-options -Z concrete-playback --concrete-playback=print "
            "--harness-timeout %ds --output-format terse --exact --target-dir %s --harness gen::%s"
            % (cap, tdir, h.name))
+    extra = h.cbmc_args
+    if failed_pids:
+        # ask CBMC for a trace of the failed check(s) only (not of every satisfied cover point)
+        extra += "".join(" --property '%s'" % x for x in list(failed_pids)[:2])
+    if extra:
+        cmd += " --cbmc-args " + extra
     p = sh(cmd, cwd=HARNESS)
     out = p.stdout
     blocks = re.findall(r"```\s*\n(.*?)```", out, re.S)
@@ -374,6 +451,99 @@ def replay(prop, h, tier, failed_descs=()):
     with open(path, "w") as f:
         f.write(header + body)
     return (True if reproduced else False), path, detail
+
+
+TRACE_CALL = re.compile(r"^#### Function call: (_RINvCs\w+?_4kani(?:16any_raw_internal|13any_raw_array)(\w)(?:Kj([0-9a-f]+)_)?E\w*)\(\)")
+TRACE_RET = re.compile(r"^\s+goto_symex\$\$return_value\$\$\w+?(?:\[(\d+)\])?=.*\(([01 ]+)\)\s*$")
+PRIM_SIZE = dict(a=1, b=1, h=1, c=4, t=2, s=2, m=4, l=4, y=8, x=8, j=8, i=8, o=16, n=16)
+
+
+def concrete_vals_from_text_trace(text):
+    """CBMC's plain-text trace (with --trace-show-function-calls) lists every call of
+    `kani::any_raw_internal::<T>` / `kani::any_raw_array::<T, N>` in call order together with the
+    value it returned (omitted when the value is irrelevant to the violation: then zero bytes are
+    used). That is exactly the byte-vector list Kani's concrete playback feeds back through
+    `kani::concrete_playback_run` (one entry per scalar, one per array element).
+    -> list of byte lists, or None if a call cannot be decoded."""
+    vals = []
+    lines = text.splitlines()
+    i = 0
+    while i < len(lines):
+        m = TRACE_CALL.match(lines[i])
+        if not m:
+            i += 1
+            continue
+        name, code, n = m.group(1), m.group(2), m.group(3)
+        size = PRIM_SIZE.get(code)
+        count = int(n, 16) if n is not None else 1
+        got = {}
+        i += 1
+        while i < len(lines) and not lines[i].startswith("#### Function return from " + name):
+            r = TRACE_RET.match(lines[i])
+            if r:
+                bits = r.group(2).replace(" ", "")
+                got[int(r.group(1) or 0)] = list(int(bits, 2).to_bytes(len(bits) // 8, "little"))
+            i += 1
+        for k in range(count):
+            if k in got:
+                vals.append(got[k])
+            elif size is not None:
+                vals.append([0] * size)
+            else:
+                return None
+    return vals
+
+
+def replay_text(prop, h, tier, failed_descs=(), failed_pids=()):
+    """Replay for harnesses run with --output-format old (Kani's own concrete playback builds a
+    JSON trace that does not fit in memory for them): ask CBMC for a plain-text trace of the
+    failed check only, rebuild the concrete_vals list from it, and run it natively through
+    kani::concrete_playback_run against the real build (real boomphf)."""
+    tdir = os.path.join(TARGET, "replay")
+    cap = h.cap * (1 if tier == "quick" else 6) * 2
+    extra = (h.cbmc_args + " --trace --trace-show-function-calls" + "".join(" --property '%s'" % x for x in list(failed_pids)[:1])).strip()
+    cmd = ("cargo kani -Z stubbing -Z unstable-options --no-assertion-reach-checks --harness-timeout %ds --output-format old "
+           "--exact --target-dir %s --harness gen::%s --cbmc-args %s" % (cap, tdir, h.name, extra))
+    out = sh(cmd, cwd=HARNESS).stdout
+    rdir = os.path.join(VERIF, "replays", prop)
+    os.makedirs(rdir, exist_ok=True)
+    path = os.path.join(rdir, h.name + ".rs")
+    k = out.find("Trace for ")
+    if k < 0:
+        with open(path, "w") as f:
+            f.write("// CBMC produced no trace for %s\n/*\n%s\n*/\n" % (h.name, out[-3000:].replace("*/", "* /")))
+        return None, path, "CBMC produced no trace for the failed check"
+    e = out.find("Violated property:", k)
+    vals = concrete_vals_from_text_trace(out[k:e if e > 0 else len(out)])
+    if vals is None:
+        return None, path, "the text trace contains a nondeterministic value of a type the decoder does not handle"
+    tname = "kani_concrete_playback_%s_from_text_trace" % h.name
+    test = ("#[test]\nfn %s() {\n    let concrete_vals: Vec<Vec<u8>> = vec![\n%s    ];\n"
+            "    kani::concrete_playback_run(concrete_vals, crate::gen::%s);\n}\n"
+            % (tname, "".join("        vec!%s,\n" % v for v in vals), h.name))
+    ensure_replay_crate()
+    pb = os.path.join(HARNESS, "src", "playback.rs")
+    with open(pb, "w") as f:
+        f.write("// @generated: concrete playback test being replayed\n" + test)
+    try:
+        o = sh("cargo kani playback -Z concrete-playback -- %s --exact --nocapture" % ("playback::" + tname),
+               cwd=REPLAY_CRATE, timeout=1200).stdout
+    except subprocess.TimeoutExpired:
+        o = "timeout"
+    finally:
+        with open(pb, "w") as f:
+            f.write("// @generated: empty when no replay is in progress\n")
+    ok = ("panicked at" in o) and _panic_matches(o, failed_descs)
+    with open(path, "w") as f:
+        f.write("// Concrete counterexample for property %s, harness gen::%s\n// values rebuilt from CBMC's text trace: %s\n"
+                "// replay: copy into /verif/harness/src/playback.rs, then cd /verif/replay && cargo kani playback -Z concrete-playback -- playback::%s\n"
+                % (prop, h.name, cmd, tname) + test + "\n/* native replay output (dev profile, real boomphf) — %s:\n%s\n*/\n"
+                % ("REPRODUCED" if ok else "not reproduced", o[-2500:].replace("*/", "* /")))
+    if ok:
+        return True, path, "reproduced natively (%s)" % tname
+    if "panicked at" in o:
+        return False, path, "native run panicked, but not at a check the solver reported: not counted"
+    return False, path, "counterexample does not reproduce natively" if "test result: ok" in o else "native replay did not run: " + o[-200:]
 
 
 # ----------------------------------------------------------------------------- known findings
@@ -461,14 +631,22 @@ def main():
     results = schedule(hs, tier, jobs, batch_size=6)
     known, _fixed = load_known()
 
-    violations, inconclusive, known_hits = [], [], []
+    violations, inconclusive, known_hits, unreplayed = [], [], [], []
     for h in hs:
         r = results[h.name]
         if r["status"] == "PASS":
             continue
         if r["status"] == "FAIL":
             k = match_known(known, prop, h, r)
-            rep, path, detail = replay(prop, h, tier, [c["desc"] for c in r["failed_checks"]])
+            if violations and not k and len(violations) >= MAX_REPLAYS:
+                # a violation of this property has already been reproduced natively: further
+                # counterexamples are listed, not replayed (each replay is a second solver run)
+                r["replay"] = dict(reproduced=None, path="", detail="not replayed: %d violation(s) of this property already reproduced" % len(violations))
+                unreplayed.append((h, r))
+                continue
+            rfn = replay_text if h.ofmt == "old" else replay
+            rep, path, detail = rfn(prop, h, tier, [c["desc"] for c in r["failed_checks"]],
+                                    [c["pid"] for c in r["failed_checks"] if c.get("pid")])
             r["replay"] = dict(reproduced=rep, path=path, detail=detail)
             if rep is True:
                 if k:
@@ -516,6 +694,8 @@ def main():
     for h, r, path in violations:
         print("VIOLATION property=%s replay=%s" % (prop, path))
         print("  harness %s: %s" % (h.name, r["reason"]))
+    for h, r in unreplayed:
+        print("COUNTEREXAMPLE-NOT-REPLAYED property=%s harness=%s %s (log %s)" % (prop, h.name, r["reason"][:160], r.get("log")))
     for h, r, why in inconclusive:
         print("INCONCLUSIVE property=%s harness=%s %s (log %s)" % (prop, h.name, why, r.get("log")))
 
@@ -543,7 +723,7 @@ def write_evidence(prop, tier, seed, hs, results, wall, violations, inconclusive
     samples = []
     for h in hs[:400]:
         r = results[h.name]
-        samples.append(dict(harness="gen::" + h.name, call=h.call, unwind=h.unwind, bounds=h.bounds,
+        samples.append(dict(harness="gen::" + h.name, call=h.call, unwind=h.unwind, cbmc_args=h.cbmc_args, bounds=h.bounds,
                             stubs=h.stubs, status=r["status"], solver_s=r["time"],
                             cbmc_checks=r["checks"], covers="%d/%d" % (r["covers_sat"], r["covers_total"]),
                             note=r["reason"][:200]))
